@@ -33,7 +33,7 @@ func init() {
 	register(&propDef{
 		id: "C16",
 		meta: propMeta{
-			explanation: "Decides the structural clauses of 'registered exactly while connected; expiry ends connections', over every function that calls Manager.AddConn (role): (R1) each acquisition is immediately paired with its deferred release on the same operand with no return in between (AddConn/RemoveConn, addSession/removeSession, yamux.Server/sess.Close, websocket New/conn.Close); (R2) the accept loop repeats only when AcceptStreamWithContext returned no error - every error ends the handler, running the defers; (R3) the context given to the accept call is the server's cancellable context, replaced by WithDeadline(that context, token.Expiry) exactly on the paths where a token is present and its Expiry is non-zero, with its cancel deferred; Shutdown cancels the shared context on every path; ctx/cancel come from one WithCancel; (R4) the verifier sets Token.Expiry from the token's exp claim exactly when present and disconnect-on-expiry is not disabled, and the multi-tenant wrapper hands on the tenant verifier's token itself; (R5) session bookkeeping adds/removes exactly the given session, shedding only closes sessions; (R6) the registration arithmetic of C05.R1 (run here too). Not decided: timing of the close relative to the expiry instant (yamux/context behaviour).",
+			explanation: "Decides the structural clauses of 'registered exactly while connected; expiry ends connections', over every function that calls Manager.AddConn (role): (R1) each acquisition is immediately paired with its deferred release on the same operand with no return in between (AddConn/RemoveConn, addSession/removeSession, yamux.Server/sess.Close, websocket New/conn.Close); (R2) the accept loop repeats only when AcceptStreamWithContext returned no error - every error ends the handler, running the defers; (R3) the context given to the accept call is the server's cancellable context, replaced by WithDeadline(that context, token.Expiry) exactly on the paths where a token is present and its Expiry is non-zero, with its cancel deferred; Shutdown cancels the shared context on every path; ctx/cancel come from one WithCancel; (R4) the verifier sets Token.Expiry from the token's exp claim exactly when present and disconnect-on-expiry is not disabled, and the multi-tenant wrapper hands on the tenant verifier's token itself; (R5) session bookkeeping adds/removes exactly the given session, shedding only closes sessions; (R6) the registration arithmetic of C05 (its whole rule set runs with this check). Not decided: timing of the close relative to the expiry instant (yamux/context behaviour).",
 			ruleText:    "obligation = one acquire/defer pair / loop edge / phi operand / store; distinct = distinct keys",
 			assumptions: []string{"context.WithDeadline cancels at the deadline and yamux AcceptStreamWithContext returns when its context is done (trusted libraries)", "deferred calls run on every exit including panics (Go semantics)"},
 		},
@@ -47,7 +47,7 @@ func init() {
 			{Name: "Expiry never set when an audience is configured", File: "pkg/auth/jwtverifier.go", Old: "\tif claims.ExpiresAt != nil && !v.disableDisconnectOnExpiry {", New: "\tif claims.ExpiresAt != nil && !v.disableDisconnectOnExpiry && v.audience == \"\" {", Rule: "C16.R4"},
 			{Name: "tenant wrapper returns a copy without the expiry", File: "pkg/auth/multi_tenant_verifier.go", Old: "\tt.TenantID = tenantID\n\treturn t, nil\n", New: "\treturn &Token{Endpoints: t.Endpoints, TenantID: tenantID}, nil\n", Rule: "C16.R4"},
 			{Name: "session removed from the set only when shedding", File: "server/upstream/server.go", Old: "\ts.addSession(sess)\n\tdefer s.removeSession(sess)\n", New: "\ts.addSession(sess)\n", Rule: "C16.R1"},
-			{Name: "membership guard dropped (D1 again)", File: "server/upstream/manager.go", Old: "\tif !slices.Contains(lb.upstreams, u) {\n", New: "\tif !slices.Contains(lb.upstreams, u) && len(lb.upstreams) == 0 {\n", Rule: "C16.R6"},
+			{Name: "membership guard dropped (D1 again)", File: "server/upstream/manager.go", Old: "\tif !slices.Contains(lb.upstreams, u) {\n", New: "\tif !slices.Contains(lb.upstreams, u) && len(lb.upstreams) == 0 {\n", Rule: "C05.R1"},
 			{Name: "proxy removes the upstream on any dial error", File: "server/proxy/httpproxy.go", Old: "\tif err != nil && errors.Is(err, upstream.ErrGone) {", New: "\tif err != nil {", Rule: "C16.R7"},
 			{Name: "benign: error classification as a switch", Benign: true, File: "server/upstream/server.go", Old: "\t\t\tif errors.Is(err, net.ErrClosed) {\n\t\t\t\treturn\n\t\t\t}\n\t\t\tif errors.Is(err, context.Canceled) {\n\t\t\t\t// Server shutdown.\n\t\t\t\treturn\n\t\t\t}\n", New: "\t\t\tswitch {\n\t\t\tcase errors.Is(err, net.ErrClosed):\n\t\t\t\treturn\n\t\t\tcase errors.Is(err, context.Canceled):\n\t\t\t\t// Server shutdown.\n\t\t\t\treturn\n\t\t\t}\n"},
 		},
@@ -384,24 +384,6 @@ func runC16(c *Ctx) {
 	c16Shutdown(c)
 	c16Expiry(c)
 	c16Sessions(c)
-	// R6: registration arithmetic
-	upstreams := p.Field(upPkg, "loadBalancer", "upstreams")
-	localUp := p.Field(upPkg, "LoadBalancedManager", "localUpstreams")
-	mgr := p.NamedType(upPkg, "LoadBalancedManager")
-	if upstreams != nil && localUp != nil && mgr != nil {
-		before := len(c.Obs)
-		c05R1(c, upstreams, localUp, mgr)
-		for i := before; i < len(c.Obs); i++ {
-			c.Obs[i].Rule = strings.Replace(c.Obs[i].Rule, "C05.R1", "C16.R6", 1)
-			c.Obs[i].Key = strings.Replace(c.Obs[i].Key, "C05.R1", "C16.R6", 1)
-		}
-		for r, n := range c.floors {
-			if strings.HasPrefix(r, "C05.R1") {
-				delete(c.floors, r)
-				c.floors[strings.Replace(r, "C05.R1", "C16.R6", 1)] = n
-			}
-		}
-	}
 }
 
 func endPos(p *Prog, e *pathEnd) string {
